@@ -237,7 +237,12 @@ _ATOM_CODES = {}
 _ATOM_STRS = {}
 
 
+UUID_RANGE = -1_000_000
+
+
 def atom_code(s):
+    if s.startswith('@uuid') and s[5:].isdigit():
+        return UUID_RANGE - 1 - int(s[5:])        # generated identifiers: a range no symbolic identifier can take
     if s not in _ATOM_CODES:
         c = -(len(_ATOM_CODES) + 1)
         _ATOM_CODES[s] = c
@@ -246,6 +251,8 @@ def atom_code(s):
 
 
 def atom_str(n):
+    if n < UUID_RANGE:
+        return f'@uuid{UUID_RANGE - 1 - n}'
     return _ATOM_STRS.get(n, f'@atom{n}')
 
 
